@@ -357,7 +357,43 @@ def analyse(ctx, repo, prop):
             loops = [f for f in frames if f.kind == "loop"]
             mask = idx.items[1] if isinstance(idx, TupleV) and len(idx.items) == 2 else None
             lp = None
-            if not (len(loops) >= 1 and isinstance(mask, Grid) and isinstance(mask.elem, CondV) and aug == "Mult"):
+            vec_masked = None
+            if len(loops) == 0 and isinstance(mask, Grid) and isinstance(mask.elem, CondV) and mask.elem.kind == "and" and aug == "Mult" and \
+                    isinstance(val, Term) and val.op == "gather" and len(val.args) == 2 and isinstance(val.args[0], Grid) and val.args[0].ndim == 1 and \
+                    isinstance(val.args[1], Term) and val.args[1].op == "masked" and isinstance(val.args[1].args[0], Grid) and \
+                    vkey(val.args[1].args[1]) == vkey(mask):
+                # M.data[m] *= factor[layer[m]]  with layer = M.row // n_o and m = (row // n_o == col // n_o) & (row // n_o < n_t): on the
+                # block-diagonal matrix (n_t blocks of n_o x n_o, checked above) m holds for every stored entry
+                sel = val.args[1].args[0].elem
+                conds = list(mask.elem.args)
+                def fd_of(p_, role):
+                    ats_ = [a_ for a_ in (p_.atoms() if isinstance(p_, Poly) else []) if a_[0] == "app" and a_[1] == "floordiv"]
+                    if len(ats_) == 1 and p_ == Poly.atom(ats_[0]) and isinstance(ats_[0][3], Poly) and ats_[0][3] == n_o and isinstance(ats_[0][2], Poly):
+                        rr_ = [x_ for x_ in ats_[0][2].atoms() if x_[0] == "app" and x_[1] == role]
+                        if len(rr_) == 1 and ats_[0][2] == Poly.atom(rr_[0]):
+                            return ats_[0]
+                    return None
+                eqs = [c_ for c_ in conds if isinstance(c_, CondV) and c_.kind == "cmp" and c_.args[0] == "=="]
+                lts = [c_ for c_ in conds if isinstance(c_, CondV) and c_.kind == "cmp" and c_.args[0] == "<"]
+                if len(conds) == 2 and len(eqs) == 1 and len(lts) == 1 and isinstance(sel, Num):
+                    a1, a2 = eqs[0].args[1], eqs[0].args[2]
+                    same_block = (fd_of(a1, "row") and fd_of(a2, "col")) or (fd_of(a1, "col") and fd_of(a2, "row"))
+                    in_range = fd_of(lts[0].args[1], "row") is not None and lts[0].args[2] == n_t
+                    if same_block and in_range and fd_of(sel.p, "row") is not None:
+                        vec_masked = val.args[0]
+            if vec_masked is not None:
+                class _LP2:
+                    pass
+                lp = _LP2()
+                lp.idx = vec_masked.dims[0][0][0]
+                k = Poly.atom(lp.idx)
+                val = vec_masked.elem
+                ctx.check(vec_masked.dim_len(0) == n_t, "LAYOUT", f"{tag}.scale.loop", "every stored entry of every shell is scaled (one vectorised, "
+                          "masked update of the data vector; the factor table has one entry per shell)", where, "M.data[m] *= factor[layer[m]]",
+                          witness=f"factor table of length {vec_masked.dim_len(0).pretty()}")
+                ctx.ok("MIRROR", f"{tag}.scale.mask", "an entry receives the factor of shell row // n_o; the mask (row // n_o == col // n_o, "
+                       "row // n_o < n_t) holds for every stored entry of the block-diagonal matrix", where, "M.row // n_o")
+            elif not (len(loops) >= 1 and isinstance(mask, Grid) and isinstance(mask.elem, CondV) and aug == "Mult"):
                 ctx.inconclusive("LAYOUT", f"{tag}.scale", "masked in-place scaling not recognised", where, witness=vstr(idx)[:300])
             else:
                 lp = loops[-1]
